@@ -156,6 +156,11 @@ impl real_tokio::io::AsyncRead for File {
 impl real_tokio::io::AsyncWrite for File {
     fn poll_write(self: Pin<&mut Self>, _cx: &mut Context<'_>, data: &[u8]) -> Poll<io::Result<usize>> {
         let me = self.get_mut();
+        // a file system without space: every write to /dev/full (as on Linux) or below /sim/full/ fails with ENOSPC
+        if me.path == std::path::Path::new("/dev/full") || me.path.starts_with("/sim/full") {
+            sim::with(|w| w.count("fs_enospc"));
+            return Poll::Ready(Err(io::Error::from_raw_os_error(libc::ENOSPC)));
+        }
         sim::with(|w| {
             let d = w.files.entry(me.path.clone()).or_default();
             if me.append {
